@@ -701,6 +701,10 @@ fn main_op(sched: &Arc<Sched>, sh: &Arc<Shared>, ms: &mut MainState, op: &Value)
     }
 }
 
+fn gdf_case(case: &Value) -> bool {
+    case["gdf"].as_bool().unwrap_or(false)
+}
+
 fn run_case(sched: &Arc<Sched>, case: &Value, idx: usize) {
     {
         let mut st = sched.st.lock().unwrap();
@@ -853,9 +857,21 @@ fn run_case(sched: &Arc<Sched>, case: &Value, idx: usize) {
             }
             let sc = sched.clone();
             let cecho = case["cecho"].as_bool().unwrap_or(false);
+            let gdf = case["gdf"].as_bool().unwrap_or(false);
             let sh2 = sh.clone();
+            let gslot_f = gslot.clone();
             let fwd = Fwd::new(move |v: i64| {
                 sc.hi(format!(r#""e":"fwd","v":{}"#, v));
+                if gdf {
+                    // the receiver gives up while it is being handed a batch: it drops the guard from
+                    // inside the Fwd target (first message only; later calls find the slot empty)
+                    let g = gslot_f.borrow_mut().take();
+                    if g.is_some() {
+                        sc.hi(r#""e":"guard_drop_begin""#.to_string());
+                        drop(g);
+                        sc.hi(r#""e":"guard_drop_end""#.to_string());
+                    }
+                }
                 if cecho && v < 1000 {
                     // the receiver answers through the same channel, from inside the forwarding loop
                     let ch = sh2.channel.lock().unwrap().clone();
@@ -871,7 +887,7 @@ fn run_case(sched: &Arc<Sched>, case: &Value, idx: usize) {
             let s = ms.stk.as_mut().unwrap();
             let (ch, guard) = Channel::new(s, fwd);
             *sh.channel.lock().unwrap() = Some(ch);
-            if case["ctl"].as_bool().unwrap_or(false) {
+            if case["ctl"].as_bool().unwrap_or(false) || gdf_case(case) {
                 *gslot.borrow_mut() = Some(guard);
                 ms.gslot = Some(gslot);
             } else {
